@@ -266,4 +266,27 @@ theorem Labelled.gcRes {s : Store} {u : Usage} (h : Labelled s u) (hidx : ∃ x 
       · exact h
       · exact h.deleteRes hidx g k n _ _ _
 
+theorem reapplyUsage_res (s : Store) (nm c : String) : (s.reapplyUsage nm c).1.res = s.res := by
+  unfold Store.reapplyUsage
+  split
+  · rfl
+  · split
+    · rfl
+    · split
+      · rfl
+      · split <;> rfl
+
+theorem Marker.reapplyUsage {s : Store} (h : Marker s) (nm c : String) : Marker (s.reapplyUsage nm c).1 := by
+  unfold Store.reapplyUsage
+  split
+  · exact h
+  · next x hg =>
+    split
+    · exact h
+    · split
+      · exact h
+      · split
+        · exact h
+        · exact h.putU (getU_some hg).1 rfl rfl (fun _ => rfl)
+
 end Xp.C19
